@@ -7,6 +7,7 @@ import (
 	"net/http"
 	"os"
 	"sort"
+	"strings"
 	"time"
 
 	"google.golang.org/protobuf/proto"
@@ -147,12 +148,18 @@ func buildC07(e *engine, p *rt.Package) {
 						}
 						srv.reset(func(string, string, proto.Message) (proto.Message, error) { return resp, nil })
 						hdr := jsonHeader()
+						// the declared result type describes every response labelled application/json, whatever
+						// content type the request carried
+						if ct := rapid.SampledFrom([]string{"application/json", "application/json", "application/json; charset=utf-8", "text/plain;charset=UTF-8", "Application/JSON", "application/x-www-form-urlencoded"}).Draw(t, "request_content_type"); ct != "application/json" {
+							hdr.Set("Content-Type", ct)
+							res.class("request_content_type:other")
+						}
 						for _, h := range eff {
 							hdr.Set(h.GetName(), goodHeaderValue(h))
 						}
 						rec, panicked := srv.serve(info.Verb, buildTarget(info, rm, !info.BodyVerb), hdr, body)
 						srv.taken()
-						if panicked != "" || rec.Code != 200 {
+						if panicked != "" || rec.Code != 200 || !strings.HasPrefix(strings.ToLower(rec.Header().Get("Content-Type")), "application/json") {
 							return // transport problems are C01/C05's subject
 						}
 						tree, err := model.ParseJSON(rec.Body.Bytes())
